@@ -22,6 +22,7 @@ type Obligation struct {
 	Pos   string
 	Goal  string
 	Guard string // reachability condition of the program point (for the vacuity re-check)
+	N     int    // number of background assertions that precede this obligation's program point
 	Props []string // properties this obligation is attributed to by its tag (Cxx.*), else empty
 }
 
@@ -41,6 +42,7 @@ type epoch struct {
 	id      int
 	parents []epParent // join epoch: value = ite over parents
 	prev    *Heap      // havoc-all epoch: heap before the havoc (for non-escaping local cells)
+	frame    *frameInfo      // havoc-all epoch whose fresh heaps keep cells outside the frame's exceptions (prev used)
 	delegate *Heap           // filtered epoch: every key not in forgot reads through to delegate
 	forgot   map[string]bool
 	memo    map[string]string
@@ -355,6 +357,8 @@ func (e *Enc) epochGet(ep *epoch, key, sort string) string {
 		if key == "$A" {
 			e.assert(app(">=", n, old))
 		} else if strings.HasPrefix(key, "$s:") {
+		} else if ep.frame != nil && !strings.HasPrefix(key, "$") {
+			e.frameOf[n] = &frameInfo{prev: old, apre: ep.frame.apre, except: ep.frame.except}
 		} else {
 			for _, c := range e.localCells[key] {
 				e.assert(app("=", app("select", n, c), app("select", old, c)))
@@ -548,6 +552,17 @@ func (e *Enc) havocAll(h *Heap) {
 	prev := h.clone()
 	ep := e.newEpoch()
 	ep.prev = prev
+	h.m = map[string]string{}
+	h.ep = ep
+}
+
+// havocAllFramed: everything may change except cells that existed before (root <= apre) and are not rooted at one of
+// the listed allocations.
+func (e *Enc) havocAllFramed(h *Heap, apre string, except []string) {
+	prev := h.clone()
+	ep := e.newEpoch()
+	ep.prev = prev
+	ep.frame = &frameInfo{apre: apre, except: except}
 	h.m = map[string]string{}
 	h.ep = ep
 }
@@ -791,7 +806,7 @@ func (e *Enc) oblige(class, desc, tag string, pos token.Pos, goal string) {
 		pp := e.w.Fset.Position(pos)
 		p = fmt.Sprintf("%s:%d", strings.TrimPrefix(pp.Filename, e.w.RepoDir+"/"), pp.Line)
 	}
-	o := &Obligation{Name: name, Func: e.name, Class: class, Tag: tag, Desc: desc, Pos: p, Goal: goal, Guard: e.pendingGuard}
+	o := &Obligation{Name: name, Func: e.name, Class: class, Tag: tag, Desc: desc, Pos: p, Goal: goal, Guard: e.pendingGuard, N: len(e.asserts)}
 	e.pendingGuard = ""
 	if strings.HasPrefix(tag, "C") && len(tag) >= 3 {
 		if k := strings.Index(tag, "."); k > 0 {
